@@ -80,6 +80,10 @@ pub enum PAlt {
 	SaddrReplaced,
 	SaddrReplacedSigned,
 	AddrsSwapped,
+	/// the reply to a standard send comes back dressed as an invoice reply (state Invoice2, fee
+	/// field filled in as invoice replies carry it) with the proof removed / re-addressed and signed
+	RemovedAsInvoice2,
+	RaddrReplacedSignedAsInvoice2,
 }
 
 pub fn palts() -> Vec<PAlt> {
@@ -101,6 +105,8 @@ pub fn palts() -> Vec<PAlt> {
 		SaddrReplaced,
 		SaddrReplacedSigned,
 		AddrsSwapped,
+		RemovedAsInvoice2,
+		RaddrReplacedSignedAsInvoice2,
 	]
 }
 
@@ -111,6 +117,8 @@ pub struct PEnv {
 	pub other_excess: Commitment,
 	pub sender: (String, u32),
 	pub recipient: (String, u32),
+	/// the fee agreed at initiation (compact replies carry a zero fee field)
+	pub fee: grin_core::core::FeeFields,
 }
 
 /// false when the reply carries no proof (alteration not applicable)
@@ -149,6 +157,19 @@ pub fn apply_palt(a: &PAlt, v: &mut SlateV4, e: &PEnv) -> bool {
 		PAlt::SaddrReplaced => Some(PaymentInfoV4 { saddr: m_pk, ..p.clone() }),
 		PAlt::SaddrReplacedSigned => Some(PaymentInfoV4 { saddr: m_pk, rsig: Some(pp_sign(e.amount, &e.excess, m_pk, r_sk())), ..p.clone() }),
 		PAlt::AddrsSwapped => Some(PaymentInfoV4 { saddr: p.raddr, raddr: p.saddr, ..p.clone() }),
+		PAlt::RemovedAsInvoice2 | PAlt::RaddrReplacedSignedAsInvoice2 => {
+			match v.sta {
+				crate::libwallet::slate_versions::v4::SlateStateV4::Standard2 => {}
+				_ => return false,
+			}
+			v.sta = crate::libwallet::slate_versions::v4::SlateStateV4::Invoice2;
+			v.fee = e.fee.clone();
+			if *a == PAlt::RemovedAsInvoice2 {
+				None
+			} else {
+				Some(PaymentInfoV4 { raddr: m_pk, rsig: Some(pp_sign(e.amount, &e.excess, p.saddr, m_sk())), ..p.clone() })
+			}
+		}
 	};
 	true
 }
@@ -351,7 +372,7 @@ fn penv(w: &World, s: &Shape, p: &Prep) -> Result<PEnv, String> {
 	let s1 = slate_from_json(&p.s1);
 	let s2 = slate_from_json(&p.s2);
 	let excess = excess_of(&s1, &s2).ok_or("cannot compute the final excess")?;
-	let env = PEnv { amount: p.amount, excess, other_excess: head_coinbase_excess(w), sender: ("A".to_owned(), acct_no(s)), recipient: ("B".to_owned(), 0) };
+	let env = PEnv { amount: p.amount, excess, other_excess: head_coinbase_excess(w), sender: ("A".to_owned(), acct_no(s)), recipient: ("B".to_owned(), 0), fee: s1.fee_fields.clone() };
 	// sanity of the harness's own view of the message: the honest signature must verify under it
 	let v4 = SlateV4::from(&s2);
 	let pr = v4.proof.ok_or("honest reply carries no proof")?;
